@@ -139,7 +139,10 @@ def sample_rules(ctx: Context) -> None:
             canon = n.canon(t.ast)
             is_zero = canon in zero_forms
             is_not = (isinstance(t.ast, ast.Name) and t.ast.id == dup) or (dup is not None and canon == count_form)  # `if not duplicates` / `if not len(duplicates)`: false edge
-            ok = ok and ((is_zero and lab == "true") or (is_not and lab == "false"))
+            good = (is_zero and lab == "true") or (is_not and lab == "false")
+            if not good and dup is not None:
+                good = _exit_iff_empty(prog, f, t.ast, lab, dup)
+            ok = ok and good
         ctx.check(ok, "D6.break-iff-empty", "BaseSampler.sample:break-condition", "the loop is left early iff no repeats were found",
                   f"the early exit is controlled by {[(src(t.ast), lab) for t, lab in deps]}", f, b.ast)
     # order inside a pass: find -> redraw -> substitute
@@ -152,9 +155,28 @@ def sample_rules(ctx: Context) -> None:
     for c in redraw:
         for x in node_for(g, c):
             deps = {(t, lab) for t, lab in g.control_closure(x, head) if t.kind == "test"}
-            ok = all(n.canon(t.ast) in zero_forms or (isinstance(t.ast, ast.Name) and t.ast.id == dup) or n.canon(t.ast) == count_form for t, _ in deps)
+            ok = all(n.canon(t.ast) in zero_forms or (isinstance(t.ast, ast.Name) and t.ast.id == dup) or n.canon(t.ast) == count_form
+                     or (dup is not None and (_exit_iff_empty(prog, f, t.ast, "true", dup) or _exit_iff_empty(prog, f, t.ast, "false", dup))) for t, _ in deps)
             ctx.check(ok, "D4.every-pass", "BaseSampler.sample:redraw-guard", "a pass with repeats always redraws",
                       f"the redraw is additionally guarded by {[src(t.ast) for t, _ in deps]}", f, c)
+
+
+def _exit_iff_empty(prog, f: FuncInfo, test: ast.expr, label: str, dup: str) -> bool:
+    """The branch `label` of `test` is taken exactly when the list of repeats is empty - decided by evaluating the test on the two order classes
+    (no repeat / some repeats), with locals bound once to len(<repeats>) read as the count."""
+    counts = [t.id for s_ in walk_scope(f.node) if isinstance(s_, (ast.Assign, ast.AnnAssign)) and s_.value is not None and src(s_.value).replace(" ", "") == f"len({dup})"
+              for t in ([s_.target] if isinstance(s_, ast.AnnAssign) else s_.targets) if isinstance(t, ast.Name)]
+    names = {x.id for x in ast.walk(test) if isinstance(x, ast.Name)} - {"len"}
+    if not names or not names <= {dup, *counts}:
+        return False
+    try:
+        empty = bool(Evaluator(prog, f)._eval(test, {dup: [], **{c: 0 for c in counts}}))
+        one = bool(Evaluator(prog, f)._eval(test, {dup: [0], **{c: 1 for c in counts}}))
+        three = bool(Evaluator(prog, f)._eval(test, {dup: [0, 1, 2], **{c: 3 for c in counts}}))
+    except AnalysisError:
+        return False
+    want = label == "true"
+    return empty == want and one != want and three != want
 
 
 def finder_rules(ctx: Context) -> None:
